@@ -411,6 +411,8 @@ func descriptor(in Instr, inst Inst, role string) string {
 		return name + ":effective"
 	case "range":
 		return name + ":range"
+	case "empty":
+		return name + ":empty"
 	}
 	return name + ":" + in.Cls + ":" + family(inst.Kind)
 }
@@ -439,7 +441,11 @@ func findingKey(field string, b Behaviour, chosen map[int]Inst) (string, []strin
 	}
 	for _, in := range b.Instrs {
 		if in.Var == culpritVar && (in.Cls == "valid" || in.Cls == "boundary") {
-			return fmt.Sprintf("misread|%s:%s|field=%s|replaces-effective-value", VarNames[culpritVar], culpritCls, field), ds
+			c := VarNames[culpritVar] + ":" + culpritCls
+			if strings.HasSuffix(culprit, ":reserved-ai") {
+				c = culprit // a distinct root cause (the decoder reads reserved additional information as 0)
+			}
+			return fmt.Sprintf("misread|%s|field=%s|replaces-effective-value", c, field), ds
 		}
 	}
 	return fmt.Sprintf("misread|%s|field=%s", culprit, field), ds
@@ -582,18 +588,27 @@ func (rn *runner) one(b Behaviour, pick func(opts []Inst) Inst) error {
 			rn.record(key, &Finding{Kind: "mismatch", Field: m.Field, What: fmt.Sprintf("field %s: specification says %s, library gives %s", m.Field, m.Want, m.Got),
 				Len: len(ins), Role: b.Role, Instrs: concrete(b, chosen), Descs: ds, Expected: expJSON, Observed: &oc})
 		}
-		// how the library treats type-correct, out-of-range values (reported, not judged)
+		// how the library treats type-correct, out-of-range values (reported, not judged): the
+		// instruction is placed next to a host name and compared with the host name alone
 		if !nb && len(b.Instrs) == 1 && b.Instrs[0].Cls == "range" && typeOf(b.Instrs[0].Var) != "flag" {
 			k := VarNames[b.Instrs[0].Var] + ":" + chosen[b.Instrs[0].ID].Kind
 			if rn.rep.Adjudicate[k] == nil {
 				rn.rep.Adjudicate[k] = map[string]int{}
 			}
-			zero, _, _ := parse(b.Role, nil, false)
-			zj, _ := json.Marshal(zero)
-			oj, _ := json.Marshal(o)
-			if string(zj) == string(oj) {
+			host := protocol.RvInstruction{Variable: protocol.RVDns, Value: cb.Tstr("adjudicate.example").Encode()}
+			if b.Instrs[0].Var == 5 {
+				host = protocol.RvInstruction{Variable: protocol.RVIPAddress, Value: cb.Bstr([]byte{192, 0, 2, 1}).Encode()}
+			}
+			base, _, _ := parse(b.Role, []protocol.RvInstruction{host}, false)
+			with, at2, _ := parse(b.Role, []protocol.RvInstruction{host, ins[0]}, false)
+			bj, _ := json.Marshal(base)
+			wj, _ := json.Marshal(with)
+			switch {
+			case at2 != "":
+				rn.rep.Adjudicate[k]["panic"]++
+			case string(bj) == string(wj):
 				rn.rep.Adjudicate[k]["ignored"]++
-			} else {
+			default:
 				rn.rep.Adjudicate[k]["took-effect"]++
 			}
 		}
@@ -698,6 +713,26 @@ func Run(in, out string, seed int64, rounds, fuzzN int) error {
 				kk := k
 				if err := rn.one(b, func(o []Inst) Inst { return o[kk%len(o)] }); err != nil {
 					return err
+				}
+			}
+			continue
+		}
+		if len(b.Instrs) == 2 {
+			// every instance of each instruction, the other one drawn
+			for pos := 0; pos < 2; pos++ {
+				n := len(Instances(b.Instrs[pos].Var, b.Instrs[pos].Cls, b.Instrs[pos].N, rn.rng))
+				for k := 0; k < n; k++ {
+					call, kk, pp := 0, k, pos
+					pick := func(o []Inst) Inst {
+						defer func() { call++ }()
+						if call == pp {
+							return o[kk%len(o)]
+						}
+						return o[rn.rng.Intn(len(o))]
+					}
+					if err := rn.one(b, pick); err != nil {
+						return err
+					}
 				}
 			}
 			continue
